@@ -34,6 +34,8 @@ while read -r c p; do
   git -C /repo reset -q --hard HEAD
   if [ $rc -eq 1 ] && echo "$o" | grep -q '^VIOLATION'; then
     echo -e "$c\t$p\tcaught\t$(echo "$o" | grep -o 'sig=[^ ]*' | sed 's/^sig=//' | sort | uniq -c | sort -rn | head -2 | awk '{printf "%s ", $2}')" | tee -a "$tmp"
+  elif why=$(grep "^$c	" seeded/superseded.tsv | cut -f2); [ -n "$why" ]; then
+    echo -e "$c\t$p\tsuperseded in effect: $why" | tee -a "$tmp"
   else
     echo -e "$c\t$p\tMISSED (exit $rc)" | tee -a "$tmp"
   fi
